@@ -84,7 +84,17 @@ def check(run):
         seqs.append(["graph calc " + line])
         if not late:
             stores.append(["graph store " + line])
-    run.rules.append("random DAGs over every supported node kind (inputs, Montgomery constants incl. 0/1/253/254/p-1, all duo operators but Pow, Neg, ternary), 1..60 (thorough: 400) nodes, random declared input layouts (contiguous or with gaps, 0..4 named vectors, shuffled supply order), boundary/random input values, random output lists; evaluated by graph::evaluate, by calc_witness through serialize/deserialize_witnesscalc_graph, by the model's single pass and by the recursive reference interpretation; containers written by the implementation are re-read and re-framed by the model; distinct = distinct op line")
+        # a twin graph of the SAME encoded length (one operator exchanged), evaluated between two evaluations of the original from a
+        # serialization buffer the harness reuses: the result must not depend on what was evaluated before (purity across calls)
+        duo = [j for j, t in enumerate(nodes) if t.startswith("D:")]
+        if not late and duo and k % 7 == 0:
+            j = rng.choice(duo)
+            f = nodes[j].split(":")
+            f[1] = rng.choice([o for o in ["Add", "Mul", "Sub"] if o != f[1]])
+            twin = nodes[:j] + [":".join(f)] + nodes[j + 1:]
+            tline = f"{';'.join(twin)} {','.join(hex(o) for o in outs)} {','.join(info) or '-'} {';'.join(ins) or '-'}"
+            seqs.append(["graph calc " + line, "graph calc " + tline, "graph calc " + line])
+    run.rules.append("random DAGs over every supported node kind (inputs, Montgomery constants incl. 0/1/253/254/p-1, all duo operators but Pow, Neg, ternary), 1..60 (thorough: 400) nodes, random declared input layouts (contiguous or with gaps, 0..4 named vectors, shuffled supply order), boundary/random input values, random output lists; evaluated by graph::evaluate, by calc_witness through serialize/deserialize_witnesscalc_graph, by the model's single pass and by the recursive reference interpretation; every seventh graph is re-evaluated after a twin of equal encoded length from the same (reused) buffer; containers written by the implementation are re-read and re-framed by the model; distinct = distinct op line")
     run.differential("graph-eval", seqs, classify=classify, shrink=False)
     run.differential("graph-store", stores, canon=lambda l, x: x.split(" bytes=")[0], shrink=False)
     # containers produced by the implementation, read by the model's framing code and written back
